@@ -17,6 +17,9 @@ class DeviceModel(object):
     def close(self):
         self._enter('close')
         self.closed = True
+        # the final commands may fail on the host link (reader unplugged): the driver is closed all the same
+        if nondet_bool():
+            raise IOError(5, 'Input/output error')
 
     def mute(self):
         self._enter('mute')
@@ -271,3 +274,14 @@ class AtsClf(object):
 
     def exchange(self, data, timeout):
         return bytearray(self.ats)
+
+
+class LlcOptModel(LlcModel):
+    """LlcModel that records the NFC-DEP options activate() was called with (C19)"""
+    def __init__(self, clf):
+        self.clf = clf
+        self.got = None
+
+    def activate(self, mac, **options):
+        self.got = options
+        return nondet_bool()
